@@ -540,6 +540,7 @@ class Check:
     lib_flags = []
     ndebug = True
     per_case_timeout = 10
+    retry_timeouts = True      # re-run a case that ended in a watchdog time-out once, alone (off where a hang seen once is evidence: real threads)
     level_note = ''
     rule = ''                   # how cases are generated, what counts as non-trivial
     model_args = ['model']
@@ -820,6 +821,7 @@ class Check:
         for e in b['errors']:
             log('[%s] build problem: %s' % (self.id, e))
 
+        self._retries_left = 8
         stats = {'streams': {}, 'evaluations': 0, 'distinct_nontrivial': 0, 'samples': [], 'crashes': {}, 'op_kinds': {}}
         seen_hashes = set()
         corr_breaks = []     # (stream, case, line idx, model line, impl line)
@@ -844,6 +846,29 @@ class Check:
                 exhaustive_all = exhaustive_all and st.exhaustive
                 t1 = time.time()
                 impl, crashes = self.run_impl(st.cases, tag='impl_' + st.name)
+                # A watchdog time-out (or a kill from outside) on a busy machine is not an observation of the library:
+                # run such a case again, alone and with three times the watchdog; if it then runs to its end, that
+                # observation counts.  Bounded, so a tree that really hangs everywhere is still reported in minutes.
+                for i, o in enumerate(impl):
+                    if self._retries_left <= 0 or not self.retry_timeouts:
+                        break
+                    if o and (o[-1].startswith('! timeout') or o[-1].startswith('! killed')):
+                        self._retries_left -= 1
+                        keep = self.per_case_timeout
+                        self.per_case_timeout = keep * 3
+                        try:
+                            again, cr2 = self.run_impl([st.cases[i]], tag='retry_' + st.name)
+                        except Exception:
+                            again, cr2 = None, None
+                        finally:
+                            self.per_case_timeout = keep
+                        if again and again[0] and not (again[0][-1].startswith('! timeout') or again[0][-1].startswith('! killed')) and again[0] != ['! notrun']:
+                            log('[%s] stream %s case %d ended in `%s` and ran to its end when run again alone: the second observation counts'
+                                % (self.id, st.name, i, o[-1][:40]))
+                            impl[i] = again[0]
+                            crashes.pop(i, None)
+                            if cr2:
+                                crashes[i] = cr2[0]
                 ran = [i for i, o in enumerate(impl) if o != ['! notrun']]
                 if len(ran) < len(st.cases):
                     st.cases = [st.cases[i] for i in ran]
